@@ -48,11 +48,20 @@ func main() {
 			}
 			cfgs := []percseq.Config{
 				{P: percseq.Params{Name: "two-writers", Cfg: small, Keys: []string{"a", "b"}, Txns: tx, Ops: two,
-					MaxReq: r.Pick(6, 9), Namespaced: true, NSPerDB: 128, Dedup: true, OneCommitTs: true}, Depth: r.Pick(6, 9)},
+					MaxReq: r.Pick(6, 10), Namespaced: true, NSPerDB: 128, Dedup: true, OneCommitTs: true}, Depth: r.Pick(6, 10)},
 				{P: percseq.Params{Name: "multi-key", Cfg: small, Keys: []string{"a", "b"}, Txns: tx, Ops: multi,
-					MaxReq: r.Pick(5, 8), Namespaced: true, NSPerDB: 128, Dedup: true, OneCommitTs: true}, Depth: r.Pick(5, 8)},
+					MaxReq: r.Pick(5, 9), Namespaced: true, NSPerDB: 128, Dedup: true, OneCommitTs: true}, Depth: r.Pick(5, 9)},
 				{P: percseq.Params{Name: "log-replay", Cfg: small, Keys: []string{"a", "b"}, Txns: tx, Ops: replayOps,
-					MaxReq: r.Pick(3, 5), Namespaced: true, NSPerDB: 128, Dedup: false, OneCommitTs: true}, Depth: r.Pick(3, 5), LogReplay: true},
+					MaxReq: r.Pick(3, 6), Namespaced: true, NSPerDB: 128, Dedup: false, OneCommitTs: true}, Depth: r.Pick(3, 6), LogReplay: true},
+			}
+			if r.Thorough() {
+				// three writers of both keys; a transaction may be committed with different
+				// commit timestamps on different keys / retries (non-conforming client)
+				three := append(append([]string{}, two...),
+					"pw:3:a", "cm:3:a:39", "rb:3:a", "pw:3:b", "cm:3:b:39", "pw:2:b", "cm:2:b:27", "rb:2:b", "cm:2:a:37", "cm:2:b:37",
+					"rs:3:ab:39", "cs:3:50:0:1", "cs:2:39:0:0")
+				cfgs = append(cfgs, percseq.Config{P: percseq.Params{Name: "three-writers-free-commit-ts", Cfg: small, Keys: []string{"a", "b"}, Txns: tx, Ops: three,
+					MaxReq: 10, Namespaced: true, NSPerDB: 128, Dedup: true, OneCommitTs: false}, Depth: 10})
 			}
 			return cfgs
 		},
